@@ -519,11 +519,23 @@ hnd_generic(coap_resource_t *resource, coap_session_t *session, const coap_pdu_t
 
   if (rc->store && (method == 2 || method == 3 || method == 5 || method == 6 || method == 7)) {
     if (coap_get_data_large(request, &len, &data, &off, &tot)) {
+      /* offset and total come from the peer's Block1 option: an application bounds them */
+      if (off > (1u << 20) || len > (1u << 20)) {
+        coap_pdu_set_code(response, COAP_RESPONSE_CODE(413));
+        return;
+      }
       if (off + len > rc->stored_len) {
-        rc->stored = (uint8_t *)realloc(rc->stored, off + len);
+        uint8_t *nb = (uint8_t *)realloc(rc->stored, off + len);
+        if (!nb) {
+          coap_pdu_set_code(response, COAP_RESPONSE_CODE(500));
+          return;
+        }
+        memset(nb + rc->stored_len, 0, off + len - rc->stored_len);
+        rc->stored = nb;
         rc->stored_len = off + len;
       }
-      memcpy(rc->stored + off, data, len);
+      if (len)
+        memcpy(rc->stored + off, data, len);
     }
   }
   if (method == 4 && rc->store) {
@@ -1473,6 +1485,22 @@ cmd_deliver(void) {
     return;
   }
   b = vf_unhex(tok[3], strlen(tok[3]), &len);
+  if (kvi("judge", 0)) {
+    /* what does the library's own datagram parser say about these bytes? (C02: a message it
+     * calls malformed must not reach a handler; whether the verdict is right is C03) */
+    int ok = 0;
+    if (len >= 4 && (b[0] >> 6) == 1) {
+      coap_pdu_t *p = coap_pdu_init(0, 0, 0, len + 8);
+      if (p) {
+        ok = coap_pdu_parse(COAP_PROTO_UDP, b, len, p) ? 1 : 0;
+        coap_delete_pdu(p);
+      }
+    }
+    ev_begin("pverdict");
+    ev_int("ok", ok);
+    ev_int("len", (long)len);
+    ev_end();
+  }
   vs_push(vs, &from, &to, b, len);
   if (kvi("icmp", 0)) {
     vchunk_t *c = vs->q;
